@@ -110,6 +110,11 @@ def srcOverlapsSpare (d s : ObsView) : Bool :=
 
 def colsVals (cols : List (Option (List Int))) : List (List Int) := cols.map (·.getD [])
 
+/-- the number of samples of channel `c` inside the buffer (the last frame may be filled partially):
+the number of `i` with `ch·i + c < len` -/
+def chanCount (u : ObsView) (c : Nat) : Nat :=
+  if u.ch == 0 || c ≥ u.len then 0 else (u.len - c + u.ch - 1) / u.ch
+
 def check (op : OpObs) (pre post : Views) (seen : Array Bool) : List Fail :=
   match op with
   | .alloc vid k named ch len cap outcome =>
@@ -280,14 +285,14 @@ def check (op : OpObs) (pre post : Views) (seen : Array Bool) : List Fail :=
         mk ["C15", "C01"] "striped-mismatch-panics" s!"ch={u.ch} slices={cols.length} outcome={outcome}" (outcome == "panic diffChannels") ++
         mk ["C15"] "striped-mismatch-caller-unchanged" "" (after == cols) ++
         frameFails ["C15"] "striped-mismatch-unchanged" pre post seen []
-      else if u.ch != 0 && u.len % u.ch != 0 then []   -- striped forms: frame-aligned buffers
       else
         let props := tagDegenerate u ["C01"]
         let cv := colsVals cols
         let longest := cv.foldl (fun m c => max m c.length) 0
         let written := min longest u.length
+        -- only positions inside the buffer: a partly filled last frame is covered as far as it exists
         let W : List (Option CellWrite) := (List.range u.ch).flatMap fun c =>
-          (List.range written).map fun i =>
+          (List.range (min written (chanCount u c))).map fun i =>
             let col := cv.getD c []
             if i < col.length then (cvt sk dk (col.getD i 0)).map fun y => (u.blk, u.off + u.ch * i + c, y)
             else some (u.blk, u.off + u.ch * i + c, 0)
@@ -306,14 +311,13 @@ def check (op : OpObs) (pre post : Views) (seen : Array Bool) : List Fail :=
         mk ["C15", "C01"] "striped-mismatch-panics" s!"ch={u.ch} slices={cols.length} outcome={outcome}" (outcome == "panic diffChannels") ++
         mk ["C15"] "striped-mismatch-caller-unchanged" "" (after == cols) ++
         frameFails ["C15"] "striped-mismatch-unchanged" pre post seen []
-      else if u.ch != 0 && u.len % u.ch != 0 then []
       else
         let props := tagDegenerate u ["C01"]
         let cv := colsVals cols
-        let rd := cv.foldl (fun m c => max m (min c.length u.length)) 0
+        let rd := (List.range u.ch).foldl (fun m c => max m (min (cv.getD c []).length (chanCount u c))) 0
         let want : List (Option (List Int)) := (List.range u.ch).map fun c =>
           let col := cv.getD c []
-          let m := min col.length u.length
+          let m := min col.length (chanCount u c)
           ((List.range m).mapM fun i => (u.cells[u.ch * i + c]?).bind (cvt sk dk)).map (· ++ col.drop m)
         match want.mapM id with
         | none => []
